@@ -26,6 +26,12 @@ Reading guide (property text → theorem)
 * `p_uthread_local_free` (repaired: deletes the native key, frees its block) → `local_free_releases_native_key`,
   `native_release_once`; source-shape obligations of the F10 repair → `proxy_checks_its_slot`.
 * creation handshake → `fields_written_before_start`.
+* failing native calls (gap round, coverage/threads.md): a creation whose `pthread_attr_init` / `pthread_attr_setdetachstate` /
+  `pthread_create` fails → `create_fail_releases_once` (NULL, no thread, the block released exactly once inside the call),
+  `freed_handle_not_permitted`; `pthread_join` reporting an error → `join_fail_code` (the call does not wait: the code recorded so
+  far); the lazy `pthread_key_create` failing → `tls_fail_changes_nothing` (set / replace / get), `current_fail_releases_once`
+  (`p_uthread_current`: NULL, the fresh block released once).  `free_only_by_unref` names these two frees as the only ones that are
+  not an unref.
 * the independent executable reference `PV/Spec/UThread.lean` (the spec column of the differential run) answers
   exactly as the machine does → `spec_refinement_step`, `spec_refinement`, `spec_refinement_disciplined`.
 * references attributed to the threads that hold them (`PV.Model.UThreadOwners`) → `user_refs_are_held`,
